@@ -10,7 +10,7 @@ PID = 'C02'
 IMPORTS = ('From VL Require Import Lib.Bytes Lib.SemVer Model.SemverUtil Spec.Ranges Spec.NodeSemver Spec.CargoReq '
            'Spec.RangeView Spec.Known Spec.GoGha Run.C02Run.')
 TARGETS = ['theories/Props/C02.vo', 'theories/Run/C02Run.vo']
-PROOF_FILES = ['Proofs/SemVerOrder.v', 'Proofs/RangeProofs.v', 'Proofs/GoGhaProofs.v', 'Proofs/PypiProofs.v', 'Props/C02.v']
+PROOF_FILES = ['Proofs/SemVerOrder.v', 'Proofs/RangeProofs.v', 'Proofs/GoGhaProofs.v', 'Proofs/PypiProofs.v', 'Proofs/GoOrderProofs.v', 'Proofs/ParseShow.v', 'Proofs/GoSameProofs.v', 'Props/C02.v']
 PINS = C.load_pins('C02')
 THEOREMS = PINS['theorems']
 KNOWN_IDS = {11: 'C02-partial-operand-zero-padded', 12: 'C02-valid-range-rejected', 13: 'C02-build-metadata-compared',
